@@ -38,7 +38,8 @@ type c03Op struct {
 	Gap      int    `json:"gap_ms"`              // sender pause before issuing this op
 	Callback bool   `json:"callback,omitempty"`  // notify: the handler calls back into the peer with its own context before it goes on working
 	WriteMs  int    `json:"write_ms,omitempty"`  // roots: the transport takes this long to accept the notification
-	Fault503 bool   `json:"fault_503,omitempty"` // notify over HTTP: the POST is answered 503 once
+	Fault503 bool   `json:"fault_503,omitempty"` // notify over HTTP: the POST is answered with a transient gateway status once
+	FaultSt  int    `json:"fault_status,omitempty"` // that status: 503 (default), 500, 502, 504 or 429
 	Elicit   bool   `json:"elicit,omitempty"`    // s2c call: elicitation/create instead of roots/list
 	CancelMs int    `json:"cancel_ms,omitempty"` // call: > 0: the caller's context ends this long after the call was issued (possibly while it is still queued at the peer)
 }
@@ -83,6 +84,7 @@ func genC03(r *vh.Rand) c03Spec {
 			op.Kind, op.WriteMs = "roots", []int{0, 1, 1500, 2500}[r.Intn(4)]
 		case op.Kind == "notify" && s.Mode == "c2s" && (s.Transport == "http" || s.Transport == "http-json") && r.Chance(1, 5):
 			op.Fault503 = true
+			op.FaultSt = []int{503, 503, 500, 502, 504, 429}[r.Intn(6)]
 		case op.Kind == "call" && s.Mode == "s2c" && r.Chance(1, 3):
 			op.Elicit = true
 		case op.Kind == "call" && persistent && s.Mode != "raw-init" && r.Chance(1, 5):
@@ -223,6 +225,7 @@ func runC03(c *vh.Case, spec c03Spec) {
 	extra := &c03Extra{callback: map[int]bool{}}
 	writeMs := map[int]int{}
 	fault503 := map[int]bool{}
+	faultSt := map[int]int{}
 	for _, op := range spec.Ops {
 		if op.Callback {
 			extra.callback[op.N] = true
@@ -233,6 +236,7 @@ func runC03(c *vh.Case, spec c03Spec) {
 		}
 		if op.Fault503 {
 			fault503[op.N] = true
+			faultSt[op.N] = op.FaultSt
 		}
 	}
 	if spec.Mode == "c2s" {
@@ -291,7 +295,11 @@ func runC03(c *vh.Case, spec c03Spec) {
 			if fault503[int(n)] {
 				delete(fault503, int(n))
 				log.Add("gateway-503", "n", int(n))
-				return &http.Response{StatusCode: 503, Status: "503 Service Unavailable", Proto: "HTTP/1.1", ProtoMajor: 1, ProtoMinor: 1,
+				st := faultSt[int(n)]
+				if st == 0 {
+					st = 503
+				}
+				return &http.Response{StatusCode: st, Status: fmt.Sprintf("%d %s", st, http.StatusText(st)), Proto: "HTTP/1.1", ProtoMajor: 1, ProtoMinor: 1,
 					Header: http.Header{"Content-Type": []string{"text/plain"}}, Body: io.NopCloser(strings.NewReader("try later")), Request: req}, nil
 			}
 			return nil, nil
